@@ -64,6 +64,17 @@ func c10Symbols() []c10Sym {
 			d2.Set(f, uint64(len(d.B)+[]int{64, 70000}[x.All("dangling-distance", 2)]))
 			return gen.SegExif(d2)
 		}},
+		{"exif-prefix-with-an-invalid-tiff-header", func(x *mc.Exec) gen.Seg {
+			// "Exif\0\0" followed by 8 or more bytes that are no TIFF header (the later segments of a split Exif block look like
+			// this): whether the scanner reports it is its business; it must step over exactly this segment
+			body := [][]byte{
+				[]byte("XX*\x00\x08\x00\x00\x00 continuation of an Exif block"),
+				[]byte("II*\x00\x00\x00\x00\x00\x00\x00\x00\x00"),
+				[]byte("MM\x00*\x00\x00\x00\x00\x00\x00"),
+				append([]byte("\xff\xd8\xff\xe1\x00\x10Exif\x00\x00"), bytes.Repeat([]byte{0xff}, 40)...),
+			}[x.All("invalid-header-body", 4)]
+			return gen.Seg{Marker: 0xE1, Payload: append([]byte(gen.ExifPrefix), body...), Kind: "exif-unspecified"}
+		}},
 		{"exif-prefix-without-a-tiff-header", func(x *mc.Exec) gen.Seg {
 			// an APP1 payload that starts like Exif but is too short to hold the 8-byte TIFF header: not an Exif block
 			k := x.All("bytes-after-the-exif-prefix", 8)
@@ -335,6 +346,25 @@ func c10Run(x *mc.Exec, segs []gen.Seg, names []string, eb, xb, chunk int) {
 			x.Fail("framing|jpeg.ScanJPEG|"+kind, fmt.Sprintf("%s [segments %v, exif callback: %s, xmp callback: %s]", msg, names, exifBehaviours[eb], xmpBehaviours[xb]),
 				map[string]string{"input_hex": hexInput(doc.B), "segments": fmt.Sprint(names)})
 		}
+		// callbacks made for a segment whose treatment is unspecified are set aside (identified by the absolute offset they report)
+		{
+			unspec := map[uint32]bool{}
+			for _, s := range table {
+				if s.Kind == "exif-unspecified" {
+					unspec[uint32(s.PayloadOff+6)] = true
+				}
+			}
+			if len(unspec) > 0 {
+				kept := got[:0]
+				for _, g := range got {
+					if g.kind == "exif" && unspec[g.header.TiffHeaderOffset] {
+						continue
+					}
+					kept = append(kept, g)
+				}
+				got = kept
+			}
+		}
 		if err != wantErr {
 			fail("return-value", fmt.Sprintf("ScanJPEG returned %v, want %v", err, wantErr))
 		}
@@ -491,7 +521,7 @@ func init() {
 			fill := mc.Space{Name: "fill-bytes", H: c10Fill, NoLevels: true, Isolate: true, SplitDepth: 1,
 				Rule: "sequences of 1..3 segments over {Exif, XMP, JFIF, COM, 5000-byte APP14, DRI} with 0, 1, 2, 3, 63 or 70 fill bytes (0xFF) and 0..191 stray non-0xFF bytes (13 lengths around the multiples of the scanner's 64-byte look-ahead) before one of them x 3 callback pairs x 2 source deliveries: fill bytes before a marker are part of the marker syntax (ITU T.81 B.1.1.2) and change nothing"}
 			return []mc.Space{edge, fill, {Name: "marker-sequences", H: c10Harness(n), NoLevels: true, Isolate: true, SplitDepth: 2,
-				Rule: fmt.Sprintf("every sequence of <= %d segments over a 21-symbol alphabet (JFIF, JFXX, Exif min/rich both byte orders, Exif whose offsets point behind the block, the Exif prefix followed by 0-7 bytes, XMP with 7 packet lengths incl. 0, 4096+-1, 65502, XMP extension, ICC, Photoshop, 0xFF runs, nested SOI/EOI, near-Exif, near-XMP, COM, DRI with 7 restart intervals incl. marker-looking ones, SOF2, COM/APP0/APP12/APP1 segments of 0-3 bytes of 0xFF, 5000-byte APPn, ignored segments (APP2, COM, non-Exif APP1, APP13) of length 0xFFFF, 0xFFFE, 0xFFFD, 0x8000, 0x7FFF, 0x100, 0xFF filled with marker-looking structure) followed by DQT SOF0 DHT SOS entropy EOI x 6 Exif-callback behaviours x 7 XMP-callback behaviours; trivial = no metadata segment", n)}}
+				Rule: fmt.Sprintf("every sequence of <= %d segments over a 22-symbol alphabet (JFIF, JFXX, Exif min/rich both byte orders, Exif whose offsets point behind the block, the Exif prefix followed by 0-7 bytes or by bytes that are no TIFF header, XMP with 7 packet lengths incl. 0, 4096+-1, 65502, XMP extension, ICC, Photoshop, 0xFF runs, nested SOI/EOI, near-Exif, near-XMP, COM, DRI with 7 restart intervals incl. marker-looking ones, SOF2, COM/APP0/APP12/APP1 segments of 0-3 bytes of 0xFF, 5000-byte APPn, ignored segments (APP2, COM, non-Exif APP1, APP13) of length 0xFFFF, 0xFFFE, 0xFFFD, 0x8000, 0x7FFF, 0x100, 0xFF filled with marker-looking structure) followed by DQT SOF0 DHT SOS entropy EOI x 6 Exif-callback behaviours x 7 XMP-callback behaviours; trivial = no metadata segment", n)}}
 		},
 		Assumptions: []string{"expected callback arguments and payloads come from the generator's own segment table", "Exif callbacks consume exactly their declared length (the statement's premise); under-consuming Exif callbacks are not explored"},
 	})
